@@ -44,7 +44,7 @@ struct Sess {
     end: u8,                // C05 sessions: how the session is ended (0 = select-all + accept by the harness)
 }
 
-const WORDS: [&str; 12] = ["ab", "ba", "abc", "cab", "bca", "aa", "bb", "c", "acb", "xyz", "axb", "b"];
+const WORDS: [&str; 14] = ["ab", "ba", "abc", "cab", "bca", "aa", "bb", "c", "acb", "xyz", "axb", "b", "a b", "b a c"];
 const POINTS: [&str; 16] = ["hb.stopped", "hb.done", "hb.harvest", "hb.consumed", "hb.end", "rm.done", "rm.append", "rm.spawn", "m.load", "m.take", "m.publish", "m.notify", "m.stop", "r.start", "r.push", "s1.read"];
 
 fn gen_c10(r: &mut Rng) -> Sess {
@@ -60,7 +60,7 @@ fn gen_c10(r: &mut Rng) -> Sess {
     timeline.push((0, Act::Eof));
     for _ in 0..(2 + r.below(5)) {
         if r.chance(2, 3) {
-            timeline.push((*r.pick(&[0u64, 5, 30]), match r.below(6) { 0..=2 => Act::Add(*r.pick(&['a', 'b', 'c'])), 3..=4 => Act::Back, _ => Act::Rotate }));
+            timeline.push((*r.pick(&[0u64, 5, 30]), match r.below(6) { 0..=2 => Act::Add(*r.pick(&['a', 'b', 'c', ' '])), 3..=4 => Act::Back, _ => Act::Rotate }));
         }
         timeline.push((0, Act::Settle));
         timeline.push((0, match r.below(6) { 0..=2 => Act::TogAll, 3..=4 => Act::SelAll, _ => Act::DeselAll }));
@@ -81,7 +81,7 @@ fn gen_c05(r: &mut Rng) -> Sess {
     for _ in 0..r.below(4) { timeline.push((*r.pick(&[0u64, 5, 20]), if r.chance(2, 3) { Act::Add(*r.pick(&['a', 'b', 'c', 'x'])) } else { Act::Back })); }
     timeline.push((0, Act::Settle));
     Sess { items, timeline, init_query: r.pick(&["", "", "a", "ab"]).to_string(), exact: true, select1: false, exit0: false, sync: false,
-           header_lines: 0, no_clear_if_empty: false, delays: vec![], set_ops: false, end: 1 + r.below(7) as u8 }
+           header_lines: 0, no_clear_if_empty: false, delays: vec![], set_ops: false, end: 1 + r.below(9) as u8 }
 }
 
 fn gen(r: &mut Rng, focus: &str) -> Sess {
@@ -110,7 +110,7 @@ fn gen(r: &mut Rng, focus: &str) -> Sess {
     let mut edit_acts = Vec::new();
     for _ in 0..n_edits {
         edit_acts.push(match r.below(10) {
-            0..=5 => Act::Add(*r.pick(&['a', 'b', 'c'])),
+            0..=5 => Act::Add(*r.pick(&['a', 'b', 'c', 'a', 'b', ' '])),
             6..=7 => Act::Back,
             8 => Act::Rotate,
             _ => Act::Hb,
@@ -237,7 +237,7 @@ fn expected(s: &Sess, run_start: usize, fed: usize, query: &str, regex: bool) ->
     s.items[run_start..fed]
         .iter()
         .skip(s.header_lines)
-        .filter(|it| if regex || s.exact { it.contains(query) } else { subseq(query, it) })
+        .filter(|it| matches_ref(s, it, query, regex))
         .cloned()
         .collect()
 }
@@ -441,9 +441,14 @@ fn run(s: &Sess) -> Outcome {
                 4 => (Key::Ctrl('d'), Event::EvActIfQueryEmpty("abort".to_string())),
                 5 => (Key::Ctrl('y'), Event::EvActIfQueryNotEmpty("accept".to_string())),
                 6 => (Key::Ctrl('g'), Event::EvActIfNonMatched("abort".to_string())),
+                8 => (Key::Ctrl('a'), Event::EvActIfQueryEmpty("abort".to_string())),
+                9 => (Key::Ctrl('a'), Event::EvActIfQueryNotEmpty("accept".to_string())),
                 _ => (Key::Ctrl('d'), Event::EvActDeleteCharEOF),
             };
             let _ = tx.send((k, ev));
+            // a chain: the conditional's own action must run before the rest of the chain
+            if s.end == 8 { let _ = tx.send((Key::Ctrl('a'), Event::EvActAccept(None))); }
+            if s.end == 9 { let _ = tx.send((Key::Ctrl('a'), Event::EvActAbort)); }
             // a conditional whose condition is false ends nothing: Enter then accepts
             let t2 = Instant::now();
             while !th.is_finished() && t2.elapsed() < Duration::from_millis(400) { std::thread::sleep(Duration::from_millis(5)); }
@@ -481,7 +486,11 @@ struct Thr {
 }
 
 fn matches_ref(s: &Sess, item: &str, q: &str, regex: bool) -> bool {
-    if regex || s.exact { item.contains(q) } else { subseq(q, item) }
+    // regex mode: the query is one pattern (letters and blanks only: literal); otherwise blanks separate terms that must all match
+    if regex { return item.contains(q); }
+    // a query of blanks only is handed to the term engine as it is (AndOrEngineFactory::parse_or)
+    if !q.is_empty() && q.trim().is_empty() { return if s.exact { item.contains(q) } else { subseq(q, item) }; }
+    q.split(' ').filter(|t| !t.is_empty()).all(|t| if s.exact { item.contains(t) } else { subseq(t, item) })
 }
 
 /// (coq term of the case, description) or None if the trace has no main thread
@@ -983,6 +992,8 @@ fn run_case(seed: u64, id: u64, focus: &str, spec: Option<&String>, out: &mut Ve
             4 => if q.is_empty() { (true, "Ctrl('d')", "EvActAbort") } else { (false, "Enter", "EvActAccept(None)") },
             5 => if !q.is_empty() { (false, "Ctrl('y')", "EvActAccept(None)") } else { (false, "Enter", "EvActAccept(None)") },
             6 => if n_match == 0 { (true, "Ctrl('g')", "EvActAbort") } else { (false, "Enter", "EvActAccept(None)") },
+            8 => if q.is_empty() { (true, "Ctrl('a')", "EvActAbort") } else { (false, "Ctrl('a')", "EvActAccept(None)") },
+            9 => if !q.is_empty() { (false, "Ctrl('a')", "EvActAccept(None)") } else { (true, "Ctrl('a')", "EvActAbort") },
             _ => if q.is_empty() { (true, "Ctrl('d')", "EvActAbort") } else { (false, "Enter", "EvActAccept(None)") },
         };
         out.push(format!("{}\tdist\tend={}", id, s.end));
